@@ -64,6 +64,8 @@ pub struct Scenario {
 	/// a history cursor (version index + value log) stepped while a compaction drops the expired
 	/// first versions and cleans up their value-log files
 	pub history_cursor: bool,
+	/// the reader is thread 0 (it runs before the background thread in the default order)
+	pub reader_first: bool,
 	/// the store starts with two immutable memtables pending (at the stall limit) and there is no
 	/// background thread: only the closer's shutdown signal can release a stalled writer
 	pub two_pending: bool,
@@ -93,6 +95,7 @@ pub fn scenarios(property: &str, tier: Tier) -> Vec<Scenario> {
 		two_flushers: false,
 		checkpoint_vs_bg: false,
 		history_cursor: false,
+		reader_first: false,
 		two_pending: false,
 		fail_all_but_first: false,
 		bounds: (2, 3),
@@ -254,6 +257,18 @@ pub fn scenarios(property: &str, tier: Tier) -> Vec<Scenario> {
 			committers: vec![vec!["a0"], vec!["a0"]],
 			bg: true,
 			reader: true,
+			..base.clone()
+		},
+		Scenario {
+			// a reader opening range cursors (two lock acquisitions) against rotate / flush / compaction
+			// only: small enough for every schedule within the bound, the reader goes first
+			name: "c01-range-cursor-vs-flush",
+			property: "C01",
+			bounds: (2, 3),
+			committers: vec![],
+			bg: true,
+			reader: true,
+			reader_first: true,
 			..base.clone()
 		},
 		Scenario {
@@ -728,6 +743,10 @@ fn run_schedule(sc: &Scenario, prefix: &[usize]) -> Result<Outcome, String> {
 			}
 			Ok(())
 		}));
+	}
+	if sc.reader && sc.reader_first {
+		let r = programs.pop().unwrap();
+		programs.insert(0, r);
 	}
 	// probe: a fresh read-only transaction at every scheduling point
 	let flusher_expect: Vec<(&str, String)> = vec![("f1", "newer-value-of-f1".to_string()), ("f2", "value-of-f2".to_string()), ("f3", "newer-value-of-f3".to_string())];
